@@ -815,3 +815,45 @@ mod tests {
   }
 }
 
+
+// Verification hook (see /verif): snapshot/restore of the mapper's private state so that an
+// external harness can tabulate `step` state by state. Compiled only with
+// `--cfg ellbur_totalmapper_verif`; adds no behaviour otherwise.
+#[cfg(ellbur_totalmapper_verif)]
+#[derive(Debug, Clone, PartialEq, Eq)]
+pub struct VerifState {
+  pub input_pressed_keys: Vec<KeyCode>,
+  pub active_mappings: Vec<Mapping>,
+  pub pass_through_keys: Vec<KeyCode>,
+  pub mapped_output_keys: Vec<KeyCode>,
+  pub mapped_absorbed_keys: Vec<KeyCode>,
+  pub absorbing_trigger: Option<KeyCode>,
+  pub repeating_trigger: Option<KeyCode>
+}
+
+#[cfg(ellbur_totalmapper_verif)]
+impl Mapper {
+  pub fn verif_snapshot(&self) -> VerifState {
+    VerifState {
+      input_pressed_keys: self.state.input_pressed_keys.clone(),
+      active_mappings: self.state.active_mappings.clone(),
+      pass_through_keys: self.state.pass_through_keys.clone(),
+      mapped_output_keys: self.state.mapped_output_keys.clone(),
+      mapped_absorbed_keys: self.state.mapped_absorbed_keys.clone(),
+      absorbing_trigger: self.state.absorbing_trigger.clone(),
+      repeating_trigger: self.state.repeating_trigger.clone()
+    }
+  }
+  
+  pub fn verif_restore(&mut self, s: &VerifState) {
+    self.state = State {
+      input_pressed_keys: s.input_pressed_keys.clone(),
+      active_mappings: s.active_mappings.clone(),
+      pass_through_keys: s.pass_through_keys.clone(),
+      mapped_output_keys: s.mapped_output_keys.clone(),
+      mapped_absorbed_keys: s.mapped_absorbed_keys.clone(),
+      absorbing_trigger: s.absorbing_trigger.clone(),
+      repeating_trigger: s.repeating_trigger.clone()
+    };
+  }
+}
